@@ -94,7 +94,7 @@ def gen_case(rng, coarse=False):
         nw = int(rng.integers(2, 300))
         lw = float(200.0 * rng.choice([0.9985, 0.9996, 1.0, 1.0004, 1.001, 1.002, 1.0024, 1.003, 1.0051, 1.01]) / (nw * f0))
     eps = [0.25, 0.2, 0.15, 0.1, 0.05][min(4, sum(f0 >= e for e in (0.2, 0.5, 1.0, 2.0)))]
-    fn_std = float(eps * f0 * rng.choice([0.5, 0.98, 0.9995, 1.0005, 1.02, 2.0]))
+    fn_std = float(eps * f0 * rng.choice([0.0, 1e-9, 0.5, 0.98, 0.9995, 1.0005, 1.02, 2.0]))     # (0: every window peaks at the same sample)
     rk = str(rng.choice(["none", "none", "low", "high", "both", "on-sample", "excludes-main-peak", "excludes-main-peak"]))
     lo = hi = None
     if rk == "excludes-main-peak":
